@@ -1300,9 +1300,9 @@ def echoes (cfg : LCfg) (x : Val) (w : WRes Val) : Bool :=
 /-- what is recorded for one operation of the model (mirrors what the harness records from the code; `stopAt` is only
 looked at for accepted writes, which passed the validation) -/
 def lrecOf (cfg : LCfg) (s : LSt) (op : LOp) : LRec :=
-  { write := match op with | .write x _ _ => some x | _ => none,
-    stopAt := match op with | .write x c _ => (runChecks (checkLimits cfg s x) c cfg.layers 0).stopAt | _ => none,
-    echo := match op with | .write x _ w => echoes cfg x w | _ => false,
+  { write := match op with | .write x _ _ _ => some x | _ => none,
+    stopAt := match op with | .write x c _ _ => (runChecks (checkLimits cfg s x) c cfg.layers 0).stopAt | _ => none,
+    echo := match op with | .write x _ w _ => echoes cfg x w | _ => false,
     setLimits := match op with | .writeLimits a b => some (a, b) | _ => none,
     ok := (lstep1 cfg s op).ok, before := limitsOf cfg s, after := limitsOf cfg (lstep1 cfg s op),
     value := (lstep1 cfg s op).value }
